@@ -918,6 +918,9 @@ func (r *c14Runner) refreshCase(cw *c14World, c c14Case) {
 	case obs.session() && emptyEmail(obs) && (claims == nil || claims["email"] == nil):
 		// the refreshed ID token has no e-mail claim and the profile endpoint yields none either
 		r.violation("c14:refresh-adopts-session-without-email", fmt.Sprintf("the refreshed ID token carries no e-mail and the profile endpoint gave none (%s: %q): the session is served/saved with an EMPTY e-mail (user %q; the login callback refuses the same input)", c.Pos, c.Kind, obs.User), cw, p, c, fired, steps, rep, claims)
+	case fired > 0 && must && c.Flow == "refresh-old-token-expired" && time.Now().After(st.expiresAt.Add(time.Second)):
+		// the refresh failed AND the old ID token has expired: nothing valid backs the session any more
+		r.violation("c14:served-after-failed-refresh-and-failed-revalidation", fmt.Sprintf("the refresh was answered with a fault and the session's own ID token expired at %s, yet the request was served as user %q", st.expiresAt.Format(time.RFC3339), obs.User+obs.UpUser), cw, p, c, fired, steps, rep, claims)
 	case fired > 0 && must && !isOld(obs):
 		r.violation("c14:session-changed-by-faulted-refresh", fmt.Sprintf("after the faulted refresh the session is no longer the old one (e-mail %q/%q, old e-mail %q; old id_token kept: %v; old access token kept: %v)", obs.Email, obs.UpEmail, st.email, obs.UpIDToken == st.idToken, obs.UpAT == st.at), cw, p, c, fired, steps, rep, claims)
 	case fired > 0 && must:
